@@ -1133,6 +1133,37 @@ def gen_fields(repo):
     out.append("/-- every fn that writes a `graph_ham_eq_*` cache (all modelled or shape-checked) -/")
     out.append("def cacheWriters : List String := %s\n" % norm_list(sorted(writers)))
 
+    # ---- scratch pool: what `reset()` does to an instance handed back (shape checks, fail closed) ---------
+    asrc = srcs[structs["Allocator"].file]
+    bsrc = srcs[structs["BondContainer"].file]
+    body, _ = find_fn_unique(asrc, "return_instance", structs["Allocator"].file)
+    sq = squash(body)
+    if not (sq.startswith("t.reset();") and sq.endswith("self.instances.push(t)")):
+        raise Unknown("Allocator::return_instance no longer has the shape `t.reset(); …; self.instances.push(t)`")
+    resets = {}
+    for m in re.finditer(r"^[ \t]*impl\b([^{;]*)\bReset\s+for\s+([A-Za-z_]\w*)", asrc + "\n" + bsrc, re.M):
+        src2 = asrc + "\n" + bsrc
+        k = src2.index("{", m.start())
+        ibody = src2[k + 1 : match_close(src2, k)]
+        rm = re.search(r"\bfn\s+reset\s*\(\s*&mut\s+self\s*\)\s*\{", ibody)
+        if not rm:
+            raise Unknown("impl Reset for %s: fn reset not found" % m.group(2))
+        rb = ibody[rm.end() - 1 :]
+        resets[m.group(2)] = squash(rb[1 : match_close(rb, 0)])
+    want_resets = {"Vec": "self.clear()", "BinaryHeap": "self.clear()", "BondContainer": "self.clear();"}
+    if resets != want_resets:
+        raise Unknown("impl Reset bodies changed: %s (expected %s)" % (resets, want_resets))
+    body, _ = find_fn_unique(bsrc, "clear", structs["BondContainer"].file)
+    want_clear = "letkeys=&mutself.keys;letmap=&mutself.map;keys.iter().map(|(t,_)|t).for_each(|k|{letbond=k.clone().into();map[bond]=None});keys.clear();self.total_weight=0.;"
+    if squash(body) != want_clear:
+        raise Unknown("BondContainer::clear (= the Reset of a pooled container) changed shape: `%s` — expected: unmap every key, keys.clear(), total_weight = 0. unconditionally (modelled as Snap.bcClear; a path that skips one of the three leaves hidden state in the pool that a snapshot does not carry)" % " ".join(body.split()))
+    bc_fields = [f for f, _, _ in models["BondContainer"].fields]
+    if bc_fields != ["map", "keys", "total_weight"]:
+        raise Unknown("BondContainer fields are %s; the reset model covers map, keys, total_weight" % bc_fields)
+    out.append("/-! ## Scratch pool reset (shape-checked: `return_instance` resets before pooling; `BondContainer::clear` unmaps every\nkey, clears `keys` and zeroes `total_weight` unconditionally — modelled by hand as `Snap.bcClear`) -/\n")
+    out.append("def resetImpls : List (String × String) := [%s]\n" % ", ".join('("%s", "%s")' % (k2, v) for k2, v in sorted(resets.items())))
+    report.append({"conversion": "pool reset", "field": "BondContainer::clear", "kind": "shape-checked(unmap keys; keys.clear(); total_weight = 0.)", "source": "util/bondcontainer.rs"})
+
     # ---- metadata -------------------------------------------------------------------------------
     out.append("/-! ## Metadata used by the driver (JSON keys the real serde output must have) and by the report -/\n")
     out.append("/-- struct name ↦ keys that serde writes (fields without `skip`) -/")
